@@ -94,10 +94,12 @@ static Bytes bmp_image() { Bytes o; tag(o, "BM"); le(o, 14 + 40 + 3 * 4 + 2 * 4,
 static Bytes prt_image() { Bytes o; tag(o, "CPAL"); le(o, 1, 4); tag(o, "PPAL"); le(o, 1048, 4); tag(o, "head"); le(o, 4, 4); le(o, 1, 4); tag(o, "data"); le(o, 1024, 4);
 	for (int i = 0; i < 1024; ++i) o.push_back((unsigned char)(i * 5 + 3));
 	le(o, 1, 4); le(o, 8, 4); le(o, 0, 4); le(o, 3, 4); le(o, 5, 4); le(o, 5, 2); le(o, 0, 2);
-	le(o, 1, 4); le(o, 2, 4); le(o, 1, 4); le(o, 9, 4);
-	le(o, 0x04030201, 4); for (int i = 0; i < 16; ++i) o.push_back((unsigned char)(i + 1)); for (int i = 0; i < 8; ++i) o.push_back((unsigned char)(101 + i)); le(o, 60, 4); le(o, 2, 4);
+	le(o, 1, 4); le(o, 4, 4); le(o, 1, 4); le(o, 9, 4);
+	le(o, 0x04030201, 4); for (int i = 0; i < 16; ++i) o.push_back((unsigned char)(i + 1)); for (int i = 0; i < 8; ++i) o.push_back((unsigned char)(101 + i)); le(o, 60, 4); le(o, 4, 4);
+	o.push_back(0x80); o.push_back(0x05); o.push_back(21); o.push_back(22);                                     // frame 0: the FIRST optional pair only (the fields of the absent pair must not depend on what memory held)
 	o.push_back(1); o.push_back(5); for (int i = 0; i < 8; ++i) o.push_back((unsigned char)(i + 20));          // frame 1: one layer, no optional bytes
 	o.push_back(0x80); o.push_back(0x85); o.push_back(11); o.push_back(12); o.push_back(13); o.push_back(14); // frame 2: no layers, both optional pairs
+	o.push_back(0x80); o.push_back(0x05); o.push_back(23); o.push_back(24);                                     // frame 3: the first pair only, again - right after a frame that carried both
 	le(o, 1, 4); for (int i = 0; i < 16; ++i) o.push_back((unsigned char)(200 + i)); return o; }
 static Bytes wav(const std::string& data, bool extra) { Bytes w; tag(w, "RIFF"); le(w, 36 + data.size() + (extra ? 12 : 0), 4); tag(w, "WAVEfmt "); le(w, 16, 4); le(w, 1, 2); le(w, 1, 2); le(w, 22050, 4); le(w, 44100, 4); le(w, 2, 2); le(w, 16, 2);
 	tag(w, "data"); le(w, data.size(), 4); w.insert(w.end(), data.begin(), data.end()); if (extra) { tag(w, "LIST"); le(w, 4, 4); tag(w, "abcd"); } return w; }
